@@ -142,7 +142,15 @@ namespace sqf
 
             // Returns true, if no recursion is present.
             // Returns false, if current array state contains a recursion.
-            bool recursion_test() { std::vector<std::shared_ptr<d_array>> vec; return recursion_test_(vec); }
+            // (looks through every kind of container, eg. an array inside a hashmap inside this array)
+            bool recursion_test() { return !contains_itself(); }
+            void contained(std::vector<std::shared_ptr<sqf::runtime::data>>& out) const override
+            {
+                for (auto& it : m_value)
+                {
+                    if (!it.empty()) { out.push_back(it.data()); }
+                }
+            }
 
 
 
